@@ -8,7 +8,7 @@ import re
 from ..index import AnalysisError, parent
 from ..paths import Summarizer
 from ..typeflow import RAW, TypeInfer, mismatch, parse_annotation, show
-from .c12 import SETTING_KEYS, OpaqueHelper, agree, source_type
+from .c12 import has_unknown, SETTING_KEYS, OpaqueHelper, agree, source_type
 from .c13 import ancestors, stmt_of
 from .common import loc
 from .jsonio import ReaderRecord, WriterRecord, check_typed_fields, check_writer_schema, load_schemas
@@ -60,6 +60,9 @@ def run(chk):
             chk.note(f'key {k!r}: {e.why} - read-back equality of this key is decided by the whole-document rule C17.R7')
             continue
         ann = setting.annots[key_field[k]]
+        if has_unknown(src):
+            chk.note(f'key {k!r}: the type of `{ast.unparse(v)[:60]}` cannot be inferred - read-back equality of this key is decided by the whole-document rule C17.R7')
+            continue
         chk.require(agree(repo, src, ann), 'C17.R1', repo.where(rec.mod, v), rec.qual, f"'{k}': {ast.unparse(v)[:60]}",
                     f'key {k!r} serialises what field {key_field[k]} declares', f'key {k!r} serialises {src}, field `{key_field[k]}` is {show(ann)}')
 
